@@ -182,6 +182,62 @@ PROPS.update({
     },
 })
 
+PROPS.update({
+    "C02": {
+        "tests": "^TestC02_",
+        "quick": {"scale": 2.0, "timeout": 900},
+        "thorough": {"scale": 20.0, "shards": 16, "timeout": 1800},
+        "rule": "rapid: a created state, a valid update/recover/deactivate signed by any of the five key types (nonce optional, both hash "
+                "algorithms), then one of 28 tamperings: each signed-payload field re-encoded without re-signing, key substituted with and "
+                "without re-signing (reveal value kept), reveal value substituted or malformed, delta substituted under the unchanged signed "
+                "hash, protected header extra/missing/empty/disallowed alg (re-signed), alg swapped or kid added without re-signing, "
+                "signature bit flipped / truncated / padded / empty / taken from another request of the same key, 2 or 4 segments, padded or "
+                "invalid base64, payload not JSON, signed suffix mismatch, missing members. Oracle: Apply refuses (nil state and error), "
+                "except recover with only the delta replaced => exactly the reference's degraded state; no attacker-marked content in any "
+                "returned state; parse-time rules also refused by the non-batch parser. TestC02_SignatureBitScan flips every signature bit "
+                "(every third bit of >64-byte signatures in quick) for each operation type x key type. Non-trivial: tampered request is "
+                "still JSON of the right shape (reaches the checks); every scanned bit; distinct by (type, tamper, request).",
+        "technique": "property-based testing (rapid) with a labelled tamper catalogue and an invariant on the applier result; exhaustive signature bit scan",
+        "level_text": "Randomised exploration of tamperings of valid signed operations plus an exhaustive single-bit scan of signatures.",
+        "level_note": "Trusts the harness request builder and deterministic signer; the untampered operation is first confirmed to be applied as the reference says.",
+        "assumptions": ["a consistent attacker triple (own key, own reveal value, own signature) is accepted by the applier by design: matching reveal values to commitments is the processor's job", "no alg <-> key-type binding is asserted (the property states none); ECDSA (r, n-s) malleability is not a single-bit change"],
+    },
+    "C03": {
+        "tests": "^TestC03_",
+        "quick": {"scale": 2.0, "timeout": 900},
+        "thorough": {"scale": 20.0, "shards": 16, "timeout": 1800},
+        "rule": "rapid: create requests assembled by hand (1-3 validated patches of all kinds incl. RFC-valid ietf-json-patch, optional "
+                "anchor origin string/object with large and fractional numbers and non-BMP names/list/arbitrary tree, optional type, keys "
+                "of all types with optional nonce) under multihash lists [18],[19],[18,19],[19,18] and three namespaces. Oracle: "
+                "UniqueSuffix == refHash(suffix data, first algorithm), ID == namespace:suffix; two varied re-serializations give the same "
+                "DID; one of ten single-field modifications (recovery commitment, delta hash, anchor origin leaf, type, update commitment, "
+                "patch leaf, patch added/removed, other-algorithm commitment, URI respelled inside a patch) must be rejected or give "
+                "another DID, and any delta change must be rejected outside batch mode. Every case is non-trivial (accepted request + "
+                "modification that still parses); distinct by (request, modification).",
+        "technique": "property-based testing (rapid): independent hash reference plus metamorphic relations (re-serialization invariance, modification sensitivity)",
+        "level_text": "Randomised exploration with an independent reference for the suffix and metamorphic relations for modifications.",
+        "level_note": "Trusts refHash/refJCS (checked by C05/C06) and the harness request builder.",
+        "assumptions": ["adding unknown members to suffix data or delta is not a modification: the request schema drops them by design"],
+    },
+    "C09": {
+        "tests": "^TestC09_",
+        "quick": {"scale": 2.0, "timeout": 900},
+        "thorough": {"scale": 25.0, "shards": 16, "timeout": 1800},
+        "rule": "rapid: (from, until, t) from the grid 0..6 x 0..6 x 0..9 (3/4) or around a large base with offsets -2..2 and +-delta (1/4); "
+                "maxOperationTimeDelta in {0,1,2,5,600,7200}; every other numeric protocol limit drawn independently and different from it; "
+                "update / recover / deactivate signed by any key type on a freshly created state. Oracle: effective <=> no bounds or "
+                "from <= t <= (until or from+delta); applier result compared with refApply (update/recover: commitments advance, document "
+                "changes iff effective, recover's document empty otherwise; deactivate refused iff not effective); a second configuration "
+                "with the same delta and other limits must give the same result; the non-batch parser must hand exactly "
+                "(from, until or from+delta or 0) to a recording TimeValidator and obey its refusal. Non-trivial: t within 1 of a bound, "
+                "or a defaulted expiry; distinct by (type, from, until, t, delta).",
+        "technique": "property-based testing (rapid): window rule written out as oracle, model comparison, metamorphic check over unrelated limits, recording validator",
+        "level_text": "Randomised exploration over a small grid that contains all orderings and equalities, plus large values.",
+        "level_note": "Trusts windowEffective (5 lines) and refApply.",
+        "assumptions": ["times and bounds below 2^50"],
+    },
+})
+
 NOT_APPLICABLE = {p: "check not built yet (work in progress; this entry is temporary)" for p in
                   ["C%02d" % i for i in range(1, 21)]}
 HOOK_COMMITS = []
